@@ -60,8 +60,29 @@ PpTimeWhy(r) ==
   ELSE IF r.re # p.fields THEN "re-parse differs from the text"
   ELSE ""
 
+\* ---- the parser on texts of the grammar (not only the printer's output) -----------------------------
+RdTsWhy(r) ==
+  LET p == RdInstant(r.text, FALSE) IN
+  IF ~p.ok THEN "harness: generated text is outside the reader's grammar"
+  ELSE IF r.re.st = "panic" THEN "parse_timestamp panicked"
+  ELSE IF ~ValidFields(p.fields) THEN (IF r.re.st = "err" THEN "" ELSE "parse_timestamp accepted invalid fields")
+  ELSE LET t == InstOfCivil(CivOfFields(p.fields), p.off) IN
+       IF ~InTsRange(t) THEN (IF r.re.st = "err" THEN "" ELSE "parse_timestamp accepted an out-of-range instant")
+       ELSE IF r.re.st # "ok" THEN "parse_timestamp refuses a valid RFC 3339 text"
+       ELSE IF InstOfApi(r.re.rsec, r.re.rns) # t THEN "parse_timestamp: not the instant the text denotes"
+       ELSE ""
+RdDtWhy(r) ==
+  LET p == RdCivilDateTime(r.text) IN
+  IF ~p.ok THEN "harness: generated text is outside the reader's grammar"
+  ELSE IF r.re = <<-1>> THEN "parse_datetime panicked"
+  ELSE IF ~ValidFields(p.fields) THEN (IF r.re = <<>> THEN "" ELSE "parse_datetime accepted invalid fields")
+  ELSE IF r.re # p.fields THEN "parse_datetime: not the datetime the text denotes"
+  ELSE ""
+
 Why(r) ==
-  CASE r.op = "pp_ts"   -> PpTsWhy(r)
+  CASE r.op = "rd_ts"   -> RdTsWhy(r)
+    [] r.op = "rd_dt"   -> RdDtWhy(r)
+    [] r.op = "pp_ts"   -> PpTsWhy(r)
     [] r.op = "pp_dt"   -> PpDtWhy(r)
     [] r.op = "pp_date" -> PpDateWhy(r)
     [] r.op = "pp_time" -> PpTimeWhy(r)
